@@ -114,7 +114,7 @@ def build_dataset(desc):
         else:
             arr = arr.reshape(nb, rows, cols)
             data_vars["im"] = (["band_im", "row", "col"], arr)
-            if all(isinstance(b, str) for b in bands):
+            if all(isinstance(b, str) for b in bands) and not im.get("object_names"):
                 coords["band_im"] = np.array(bands, dtype=str) if bands else np.array([], dtype=str)
             else:
                 coords["band_im"] = np.array(bands, dtype=object)
@@ -237,6 +237,8 @@ def base_dataset(rng, cls, grid):
          "vars": [], "attrs": list(FIVE)}
     if cls == "multiband":
         d["im"]["bands"] = rng.choice([["r", "g", "b"], ["red", "nir"], ["p"]])
+        # string names held in an object-typed coordinate (pandas Index, netCDF read-back ...) are string names
+        d["im"]["object_names"] = rng.random() < 0.4
     elif cls == "grids":
         d["disp"]["labels"] = rng.choice([["min", "max"], ["max", "min"], ["min", "max", "other"], ["x", "max", "min"]])
         d["disp"]["lo"], d["disp"]["hi"] = rng.choice([(-3.0, 1.5), (0.0, 0.0), (-1.25, 4.0)])
